@@ -1,5 +1,6 @@
 import BevySyncModel.Proofs.CompWork
 import BevySyncModel.Proofs.Hier
+import BevySyncModel.Proofs.CompLive
 import BevySyncModel.Generated.Sync
 /-! # C05 — parent-child links between synchronized entities converge
 
@@ -29,6 +30,26 @@ theorem C05_links_converge (x : Option V) (s : State V) (es : List (Epoch V))
     (hn : (s.clients.map (·.id)).Nodup) (hc : Clean x s) (hok : EpochsOk true s es) :
     Clean (lastWrittenEpochs x es) (runEpochs true s es) :=
   epochs_converge x s es hn hc hok
+
+/-- **C05, one epoch, without assuming the drain** (unconditional host relay): after any interleaving in which one peer —
+the host, or client `w` — re-parents a child any number of times, three fair rounds without further operations leave every
+peer with the last link and nothing pending; and from any state whatsoever three such rounds end quiescent -/
+theorem C05_host_epoch_total (x : Option V) (s : State V) (as : List (Act V)) (hc : Clean x s)
+    (ha : ∀ a ∈ as, HostWrites a) :
+    ∃ more : List (Act V), (∀ a ∈ more, isWrite a = false) ∧
+      Clean (lastWritten x as) (run true false replace (run true false replace s as) more) :=
+  host_epoch_total x s as hc ha
+
+theorem C05_client_epoch_total (w : Nat) (x : Option V) (s : State V) (as : List (Act V))
+    (hn : (s.clients.map (·.id)).Nodup) (hw : ∃ c ∈ s.clients, c.id = w) (hc : Clean x s)
+    (ha : ∀ a ∈ as, ClientWrites w a) :
+    ∃ more : List (Act V), (∀ a ∈ more, isWrite a = false) ∧
+      Clean (lastWritten x as) (run true false replace (run true false replace s as) more) :=
+  client_epoch_total w x s as hn hw hc ha
+
+theorem C05_quiescent_within_three_rounds (s : State V) :
+    Quiescent (round (ra := true) replace (round (ra := true) replace (round (ra := true) replace s))) :=
+  three_rounds_quiescent replace s
 
 /-- **C05, termination.** Once drained, no further frame of any peer sends anything; while the host
 re-parents, clients never answer (no echo) and at most N messages leave per operation; while a client
